@@ -17,6 +17,20 @@ PROP = "C07"
 D = progs.D
 
 NAMES = [n for n, _, k in progs.STEPS if n not in ("cat", "cat_id", "join_cross", "join_shared")]
+# composition-specific shapes: a limit of 0, windows whose multi-column orders are permutations of each other, windows with equal specs (merge on re-build)
+EXTRA = {
+    "ord_lim0": ".order_rows(['x'], limit=0)",
+    "ord_lim1_rev": ".order_rows(['y'], reverse=['y'], limit=1)",
+    "win_rn_xy": ".extend({'r1': '_row_number()'}, partition_by=['g'], order_by=['x', 'y'])",
+    "win_rn_yx": ".extend({'r2': '_row_number()'}, partition_by=['g'], order_by=['y', 'x'])",
+    "win_rn_xy_rev": ".extend({'r3': '_row_number()'}, partition_by=['g'], order_by=['x', 'y'], reverse=['y'])",
+    "win_cs_xy": ".extend({'c1': 'x.cumsum()'}, partition_by=['g'], order_by=['x', 'y'])",
+    "win_sum_g": ".extend({'t1': 'y.sum()'}, partition_by=['g'])",
+    "win_sum_gy": ".extend({'t2': 'x.sum()'}, partition_by=['g', 'y'])",
+}
+for _k, _v in EXTRA.items():
+    progs.STEP.setdefault(_k, (_v, "extra"))
+NAMES = NAMES + list(EXTRA)
 
 
 def _b_base(cols, name="b_in"):
